@@ -6,6 +6,7 @@ package main
 
 import (
 	"fmt"
+	"go/ast"
 	"go/constant"
 	"go/token"
 	"go/types"
@@ -56,6 +57,19 @@ func registeredBuiltins(p *Program) map[string]*ssa.Function {
 		if mi, ok := c.Common().Args[2].(*ssa.MakeInterface); ok {
 			if f, ok := mi.X.(*ssa.Function); ok {
 				out[constant.StringVal(k.Value)] = f
+			}
+		}
+	}
+	// the registrations kept as a table: a package-level slice of (name,
+	// function) entries that New walks, registering every entry
+	for _, c := range callsTo(newFn, setFn) {
+		if _, isConst := c.Common().Args[1].(*ssa.Const); isConst {
+			continue
+		}
+		names, fns, _ := tableRegistrations(p, c.Common().Args[1])
+		for i, n := range names {
+			if fns[i] != nil {
+				out[n] = fns[i]
 			}
 		}
 	}
@@ -972,4 +986,116 @@ func anyPredIsTest(b *ssa.BasicBlock, tests map[*ssa.BasicBlock]bool) bool {
 		}
 	}
 	return false
+}
+
+// tableRegistrations: v is read out of an entry of a package-level slice of
+// (name, function) entries that is never written after initialisation; the
+// names and functions of all its entries (nil where an entry's function is not
+// a function of the module), and whether every entry was understood.
+func tableRegistrations(p *Program, v ssa.Value) (names []string, fns []*ssa.Function, all bool) {
+	var g *ssa.Global
+	var find func(v ssa.Value, depth int)
+	find = func(v ssa.Value, depth int) {
+		if v == nil || depth > 8 || g != nil {
+			return
+		}
+		switch x := v.(type) {
+		case *ssa.Global:
+			g = x
+		case *ssa.UnOp:
+			find(x.X, depth+1)
+		case *ssa.Field:
+			find(x.X, depth+1)
+		case *ssa.FieldAddr:
+			find(x.X, depth+1)
+		case *ssa.IndexAddr:
+			find(x.X, depth+1)
+		case *ssa.Index:
+			find(x.X, depth+1)
+		case *ssa.Extract:
+			find(x.Tuple, depth+1)
+		case *ssa.Next:
+			find(x.Iter, depth+1)
+		case *ssa.Range:
+			find(x.X, depth+1)
+		case *ssa.Phi:
+			for _, e := range x.Edges {
+				find(e, depth+1)
+			}
+		case *ssa.MakeInterface:
+			find(x.X, depth+1)
+		case *ssa.Alloc:
+			if x.Referrers() != nil {
+				for _, ref := range *x.Referrers() {
+					if st, ok := ref.(*ssa.Store); ok && st.Addr == ssa.Value(x) {
+						find(st.Val, depth+1)
+					}
+				}
+			}
+		}
+	}
+	find(v, 0)
+	if g == nil || g.Pkg == nil || !globalNeverWritten(p, g) {
+		return nil, nil, false
+	}
+	pk := p.ByPath[g.Pkg.Pkg.Path()]
+	if pk == nil {
+		return nil, nil, false
+	}
+	all = true
+	found := false
+	for _, f := range pk.Syntax {
+		for _, d := range f.Decls {
+			gd, ok := d.(*ast.GenDecl)
+			if !ok {
+				continue
+			}
+			for _, sp := range gd.Specs {
+				vs, ok := sp.(*ast.ValueSpec)
+				if !ok {
+					continue
+				}
+				for i, nm := range vs.Names {
+					if nm.Name != g.Name() || i >= len(vs.Values) {
+						continue
+					}
+					cl, ok := vs.Values[i].(*ast.CompositeLit)
+					if !ok {
+						return nil, nil, false
+					}
+					found = true
+					for _, el := range cl.Elts {
+						ecl, ok := el.(*ast.CompositeLit)
+						if !ok {
+							all = false
+							continue
+						}
+						name, fn := "", (*ssa.Function)(nil)
+						for _, fe := range ecl.Elts {
+							if kv, ok := fe.(*ast.KeyValueExpr); ok {
+								fe = kv.Value
+							}
+							if tv, ok := pk.TypesInfo.Types[fe]; ok && tv.Value != nil && tv.Value.Kind() == constant.String && name == "" {
+								name = constant.StringVal(tv.Value)
+								continue
+							}
+							if id, ok := ast.Unparen(fe).(*ast.Ident); ok {
+								if fo, ok := pk.TypesInfo.Uses[id].(*types.Func); ok {
+									if sf := p.SSA.FuncValue(fo); sf != nil && fnPkg(sf) != nil && IsLibPath(fnPkg(sf).Pkg.Path()) {
+										fn = sf
+									}
+								}
+							}
+						}
+						if name == "" || fn == nil {
+							all = false
+						}
+						names = append(names, name)
+						fns = append(fns, fn)
+					}
+				}
+			}
+		}
+	}
+	return names, fns, all && found && len(names) > 0
 }
